@@ -6,6 +6,7 @@
 import OttoVerif.Base.Proto
 import OttoVerif.C03.LitModel
 import OttoVerif.C03.LitSpec
+import OttoVerif.C04.Reserved
 namespace OttoVerif.C03.Lit
 open OttoVerif OttoVerif.Proto OttoVerif.F64
 
@@ -54,6 +55,76 @@ def handleStr (ws : List String) : String :=
     | some bs =>
       let rs := Str.decodeRunes bs
       strOut (LitModel.parseStringLiteral bs) ++ " " ++ strOut ((LitSpec.sv (rs.length + 1) rs).map Str.bytesOfUnits) ++ " " ++ (if splitPair (rs.length + 1) rs then "surrogate_pair_split" else "-")
+    | none => "bad-request bad-request -"
+  | _ => "bad-request bad-request -"
+
+/-! ### object literal property names (ES5 11.1.5) -/
+
+/-- ToString (9.8.1) of the exact value n/d for the plain-decimal range, when the decimal expansion is finite and short
+    (all the generator uses): "123", "0.5", "1.25" -/
+def numToString (n d : Nat) : Option String :=
+  if d = 0 then none
+  else if n % d = 0 then (if n / d < 10^21 then some (toString (n / d)) else none)
+  else
+    let rec find (k fuel : Nat) : Option Nat :=
+      match fuel with
+      | 0 => none
+      | fuel+1 => if (n * 10^k) % d = 0 then some k else find (k+1) fuel
+    match find 1 15 with
+    | none => none
+    | some k =>
+      let m := n * 10^k / d
+      let ip := m / 10^k
+      let fp := m % 10^k
+      if 1000000 * n < d then none else   -- below 1e-6: exponent notation
+      let fs := toString fp
+      some (toString ip ++ "." ++ String.ofList (List.replicate (k - fs.length) '0') ++ fs)
+
+def bytesToString? (bs : List Nat) : Option String := String.fromUTF8? (ByteArray.mk (bs.map (·.toUInt8)).toArray)
+
+/-- model (parseObjectPropertyKey, expression.go:233-265) and specification (11.1.5 PropertyName) of one key;
+    third component: is the request inside `numeric_property_key` (the source spelling differs from ToString(MV)) -/
+def keyOf (kind : String) (sp : List Nat) : Option (String × String × Bool) :=
+  match kind with
+  | "id" => do
+    let s ← bytesToString? sp
+    let cs ← OttoVerif.C04.Reserved.decode s.toList
+    let name := String.ofList cs
+    pure (name, name, false)
+  | "str" =>
+    let body := (sp.drop 1).dropLast
+    let rs := Str.decodeRunes body
+    match LitModel.parseStringLiteral body, (LitSpec.sv (rs.length + 1) rs).map Str.bytesOfUnits with
+    | some m, some s => do let ms ← bytesToString? m; let ss ← bytesToString? s; pure (ms, ss, false)
+    | _, _ => none
+  | "num" => do
+    let text ← bytesToString? sp
+    let _ ← LitModel.parseNumberLiteral sp           -- :246: a literal that does not parse is an error
+    let (n, d) ← LitSpec.mv sp
+    let canon ← numToString n d
+    pure (text, canon, text != canon)                 -- :250 `value = literal`
+  | _ => none
+
+/-- obj <entries> <srchex>: entries = `kind.keykind~hexspelling` separated by ','  (kind: value | get | set) -/
+def handleObj (ws : List String) : String :=
+  match ws with
+  | [entries, _src] =>
+    let rec go (es : List String) (m s : List String) (dev : Bool) : Option (List String × List String × Bool) :=
+      match es with
+      | [] => some (m.reverse, s.reverse, dev)
+      | e :: r =>
+        match e.splitOn "~" with
+        | [kk, h] =>
+          match kk.splitOn ".", bytes? h with
+          | [kind, keykind], some sp =>
+            match keyOf keykind sp with
+            | some (km, ks, dv) =>
+              go r ((kind ++ ":" ++ bytesOut (km.toUTF8.toList.map (·.toNat))) :: m) ((kind ++ ":" ++ bytesOut (ks.toUTF8.toList.map (·.toNat))) :: s) (dev || dv)
+            | none => none
+          | _, _ => none
+        | _ => none
+    match go (entries.splitOn ",") [] [] false with
+    | some (m, s, dev) => ",".intercalate m ++ " " ++ ",".intercalate s ++ " " ++ (if dev then "numeric_property_key" else "-")
     | none => "bad-request bad-request -"
   | _ => "bad-request bad-request -"
 
